@@ -164,7 +164,52 @@ func (g *Gen) DrawEnv(txs []txgen.Tx) sim.BlockSpec {
 	for _, tx := range txs {
 		spec.Txs = append(spec.Txs, tx.Bytes)
 	}
+	// nodes that went down: absent from every commit from some height on (tendermint drops the ones that would
+	// take the signers to 2/3 or less)
+	if !g.downDrawn {
+		g.downDrawn = true
+		g.Down, g.DownFrom = DrawDown(g.Uniform, len(g.W.G.U.Vals))
+	}
+	spec.Absent = append(spec.Absent, DownAbsent(g.W, g.Down, g.DownFrom)...)
 	return spec
+}
+
+// DrawDown draws the validators (universe indexes) whose nodes go down, and the height from which they are down:
+// in 1 of 3 histories one validator, in 1 of 12 two.
+func DrawDown(uniform func(n int, label string) int, nVals int) ([]int, int64) {
+	if nVals < 2 {
+		return nil, 0
+	}
+	var down []int
+	switch r := uniform(12, "down"); {
+	case r < 3:
+		down = []int{uniform(nVals, "down-a")}
+	case r == 3:
+		a := uniform(nVals, "down-a")
+		down = []int{a, (a + 1 + uniform(nVals-1, "down-b")) % nVals}
+	}
+	return down, int64(2 + uniform(25, "down-from"))
+}
+
+// DownAbsent returns, for the block about to be made, the positions in tendermint's last set of the validators
+// that are down.
+func DownAbsent(w *World, down []int, from int64) []int {
+	if len(down) == 0 || w.C.Last == nil || w.C.Height+1 < from {
+		return nil
+	}
+	var out []int
+	for _, vi := range down {
+		if vi < 0 || vi >= len(w.G.U.Vals) {
+			continue
+		}
+		addr := w.G.U.Vals[vi].Key.Addr
+		for i, v := range w.C.Last.Validators {
+			if keys.Address(v.Address.Bytes()).Equal(addr) {
+				out = append(out, i)
+			}
+		}
+	}
+	return out
 }
 
 // Observe updates the generator-side bookkeeping from the primary's results of a block.
